@@ -1,0 +1,42 @@
+//go:build verif
+
+package vgirpc
+
+import "github.com/apache/arrow-go/v18/arrow"
+
+// Verification hooks (build tag "verif") for the describe property (C09):
+// read-only view of what a registration stored. Add-only; nothing here is
+// compiled into normal builds.
+
+// VerifC09Info is the part of a method's registration that __describe__ reads.
+type VerifC09Info struct {
+	Type          MethodType
+	HasResultType bool
+	Params        *arrow.Schema
+	Result        *arrow.Schema
+	Output        *arrow.Schema
+	Input         *arrow.Schema
+	HasHeader     bool
+	Header        *arrow.Schema
+}
+
+// VerifC09MethodInfo returns the stored registration of name.
+func VerifC09MethodInfo(s *Server, name string) (VerifC09Info, bool) {
+	info, ok := s.methods[name]
+	if !ok {
+		return VerifC09Info{}, false
+	}
+	return VerifC09Info{
+		Type:          info.Type,
+		HasResultType: info.ResultType != nil,
+		Params:        info.ParamsSchema,
+		Result:        info.ResultSchema,
+		Output:        info.OutputSchema,
+		Input:         info.InputSchema,
+		HasHeader:     info.HasHeader,
+		Header:        info.HeaderSchema,
+	}, true
+}
+
+// VerifC09MethodCount returns the number of registered methods.
+func VerifC09MethodCount(s *Server) int { return len(s.methods) }
